@@ -233,46 +233,55 @@ package processors
 //@ property C09
 //@ assigns nothing
 //@ ensures [built] result != nil
+//@ ensures [is-the-built-in] typeIs(toany(result), *loggerAwarePostProcessors)
 //@ func NewConfigQuoteAwarePostProcessors
 //@ terminates
 //@ property C09 C16
 //@ assigns nothing
 //@ ensures [built] result != nil
+//@ ensures [is-the-built-in] typeIs(toany(result), *configQuoteAwarePostProcessors)
 //@ func NewExpressionTagAwarePostProcessors
 //@ terminates
 //@ property C09 C18
 //@ assigns nothing
 //@ ensures [built] result != nil
+//@ ensures [is-the-built-in] typeIs(toany(result), *expressionTagAwarePostProcessors)
 //@ func NewPropertiesAwarePostProcessors
 //@ terminates
 //@ property C09
 //@ assigns nothing
 //@ ensures [built] result != nil
+//@ ensures [is-the-built-in] typeIs(toany(result), *propertiesAwarePostProcessors)
 //@ func NewValueAwarePostProcessors
 //@ terminates
 //@ property C09
 //@ assigns nothing
 //@ ensures [built] result != nil
+//@ ensures [is-the-built-in] typeIs(toany(result), *valueAwarePostProcessors)
 //@ func NewValidateAwarePostProcessors
 //@ terminates
 //@ property C09 C18
 //@ assigns nothing
 //@ ensures [built] result != nil
+//@ ensures [is-the-built-in] typeIs(toany(result), *validateAwarePostProcessors)
 //@ func NewDependencyAwarePostProcessors
 //@ terminates
 //@ property C09
 //@ assigns nothing
 //@ ensures [built] result != nil
+//@ ensures [is-the-built-in] typeIs(toany(result), *dependencyAwarePostProcessors)
 //@ func NewDependencyFurtherMatchingProcessors
 //@ terminates
 //@ property C09
 //@ assigns nothing
 //@ ensures [built] result != nil
+//@ ensures [is-the-built-in] typeIs(toany(result), *dependencyFurtherMatchingPostProcessors)
 //@ func NewDependencyFunctionAwarePostProcessors
 //@ terminates
 //@ property C09
 //@ assigns nothing
 //@ ensures [built] result != nil
+//@ ensures [is-the-built-in] typeIs(toany(result), *dependencyFunctionAwarePostProcessors)
 
 // ---- placeholders (C16): ${key} / ${key:default} is the configured value if present, else the default ---------------
 //   CfgPresent(v)  a configured value counts as present unless it is nil, an empty map or an empty list
